@@ -45,18 +45,20 @@ class SFmt(Sym):
     def _eq(self, o):
         if isinstance(o, SFmt):
             if o.fmt != self.fmt or len(o.args) != len(self.args):
-                raise OutOfSubset('comparison of differently formatted symbolic strings')
+                return sym_eq(self.force(), o.force())
             return And(*[sym_eq(a, b) for a, b in zip(self.args, o.args)])
         if isinstance(o, str):
             return self._eq_text(o)
+        if isinstance(o, Sym) and getattr(o, '_pytype', None) is str:
+            return sym_eq(self.force(), o)
         return False
 
     def _eq_text(self, s):
         import re
         # only: literal prefix + one %d / %0Nd + literal suffix, integer argument
         m = re.match(r'^([^%]*)%(0?)(\d*)d([^%]*)$', self.fmt)
-        if not m or len(self.args) != 1:
-            raise OutOfSubset('comparison of formatted symbolic string %r with text' % self.fmt)
+        if not m or len(self.args) != 1 or not _b.isinstance(self.args[0], SInt):
+            return sym_eq(self.force(), s)
         pre, zero, width, suf = m.group(1), m.group(2), m.group(3), m.group(4)
         if not (s.startswith(pre) and s.endswith(suf) and len(s) >= len(pre) + len(suf)):
             return False
@@ -77,6 +79,85 @@ class SFmt(Sym):
 
     def _sym_str(self):
         return self
+
+    # -- forcing: build the shape-typed string (forks on the number of digits of symbolic integers) ----------
+    def force(self):
+        import re
+        from . import sstr
+        if self.fmt == '<fstring>':
+            out = ''
+            for p in self.args:
+                if isinstance(p, str):
+                    out = out + p
+                else:
+                    v, conv, spec = p
+                    if conv == 114 or spec not in ('', 'd'):
+                        raise OutOfSubset('f-string conversion on a symbolic value')
+                    out = out + s_str(v)
+            return out
+        pieces = re.split(r'(%[-0 +#]*\d*(?:\.\d+)?[sdrfi%])', self.fmt)
+        out = ''
+        ai = 0
+        for pc in pieces:
+            if not pc.startswith('%') or len(pc) < 2:
+                out = out + pc
+                continue
+            if pc == '%%':
+                out = out + '%'
+                continue
+            m = re.match(r'%([-0 +#]*)(\d*)(?:\.(\d+))?([sdrfi])', pc)
+            flags, width, prec, ty = m.group(1), m.group(2), m.group(3), m.group(4)
+            a = self.args[ai]
+            ai += 1
+            if not _anysym(a):
+                out = out + (pc % (a,))
+                continue
+            if ty in 'di' and isinstance(a, SInt) and set(flags) <= {'0'} and prec is None:
+                out = out + sstr.format_int(a, _b.int(width or 0), '0' in flags)
+            elif ty == 's' and not flags and not width and prec is None:
+                out = out + s_str(a)
+            elif hasattr(a, '_sym_printf'):
+                out = out + a._sym_printf(flags, width, prec, ty)
+            else:
+                raise OutOfSubset('format %r of %s' % (pc, type(a).__name__))
+        return out
+
+    def __getattr__(self, name):
+        if name.startswith('__') or name in ('fmt', 'args'):
+            raise AttributeError(name)
+        return getattr(self.force(), name)
+
+    def __getitem__(self, i):
+        return self.force()[i]
+
+    def __len__(self):
+        return _b.len(self.force())
+
+    def _sym_len(self):
+        return _b.len(self.force())
+
+    def __add__(self, o):
+        return self.force() + (o.force() if isinstance(o, SFmt) else o)
+
+    def __radd__(self, o):
+        return o + self.force()
+
+    def _sym_contains(self, x):
+        return sym_in(x, self.force())
+
+    def _sym_in(self, y):
+        return sym_in(self.force(), y)
+
+    def _sym_int(self, *a):
+        return s_int(self.force(), *a)
+
+    def _sym_float(self):
+        return s_float(self.force())
+
+    def __lt__(self, o): return self.force() < o
+    def __le__(self, o): return self.force() <= o
+    def __gt__(self, o): return self.force() > o
+    def __ge__(self, o): return self.force() >= o
 
 
 def sym_eq(a, b):
